@@ -246,4 +246,29 @@ let () =
       L [L outs; of_bool all_ok; of_n (M.dir_count !dir)]
     | _ -> raise (Parse_error "args"))
 
+
+(* ---- interleavings (C20) ---- *)
+let () =
+  register "conc_run" (function [cg; docs; L setup; L queries; sched] ->
+      let dd = to_docs docs in
+      (match M.index_g false (nat_of_int (List.length dd + 1)) dd with
+       | M.AOk ix ->
+           let (_, pool) = M.run (M.init_pool ix (to_n cg)) (List.map to_op setup) in
+           let arr i = List.nth pool.M.arrays i in
+           let prog = function
+             | L [A "tf"; a; t; lo; hi] -> M.prog_tf pool (arr (to_int a)) (to_n t) (opt_n lo) (opt_n hi)
+             | L [A "phrase"; a; ts] -> M.prog_phrase pool (arr (to_int a)) (nl ts)
+             | L [A "df"; a; t] -> M.prog_df (to_nat a) (arr (to_int a)) (to_n t)
+             | L [A "score"; a; t; idf; k1; b] -> M.prog_score pool (to_nat a) (arr (to_int a)) (to_n t) (to_z idf) (to_z k1) (to_z b)
+             | L [A "select"; a; pos] -> M.prog_select (to_nat a) (nl pos)
+             | _ -> raise (Parse_error "conc query") in
+           let ths = List.map (fun q -> M.spawn (prog q)) queries in
+           let sch = List.map to_nat (match sched with L l -> l | _ -> []) in
+           let (p1, ths1) = M.run_sched pool ths sch in
+           (* let every thread finish: append the serial completion *)
+           let (_, ths2) = M.run_sched p1 ths1 (M.serial_schedule ths1) in
+           L [A "ok"; L (List.map (function Some o -> of_out o | None -> A "unfinished") (M.results ths2))]
+       | other -> of_api (fun _ -> A "x") other)
+    | _ -> raise (Parse_error "args"))
+
 let () = main ()
